@@ -112,7 +112,9 @@ def obj_spec(draw):
 
 @st.composite
 def step(draw):
-    kind = draw(st.sampled_from(["call", "call", "set_efth", "set_dir", "set_freq", "partition_other", "bad_stat", "attr_lookup", "reader", "file_roundtrip", "fit", "observe", "observe", "observe"]))
+    # in-place edits and observations carry most of the weight: a stale value needs call -> edit -> observe on one object
+    kind = draw(st.sampled_from(["call", "call", "call", "set_efth", "set_efth", "set_dir", "set_dir", "set_freq", "set_freq", "partition_other", "bad_stat", "attr_lookup", "reader", "file_roundtrip",
+                                 "fit", "observe", "observe", "observe", "observe", "observe"]))
     s = dict(kind=kind, obj=draw(st.integers(0, 2)), via=draw(st.sampled_from(["dataset", "array"])))
     if kind in ("call", "observe"):
         s["op"] = draw(ops.op_spec(names=OBS_OPS_DS, has_dir=True, nf=3))
@@ -123,7 +125,7 @@ def step(draw):
         s["k"] = draw(st.sampled_from([4.0, 0.25, 9.0]))
         s["spec"] = draw(gen.spectrum(kinds=("multinoisy", "sparse")))
     elif kind == "set_dir":
-        s["how"] = draw(st.sampled_from(["shift", "halve", "reverse"]))
+        s["how"] = draw(st.sampled_from(["shift", "halve", "halve", "reverse"]))
         s["a"] = draw(st.sampled_from([7.5, 90.0, 180.0]))
     elif kind == "set_freq":
         s["k"] = draw(st.sampled_from([1.1, 0.5, 2.0]))
@@ -407,6 +409,6 @@ def check_history(case, ctx):
 
 def facets():
     return [
-        Facet("histories", history(12), check_history, quick=160, thorough=6000, qshards=8),
+        Facet("histories", history(14), check_history, quick=240, thorough=6000, qshards=8),
         Facet("long_histories", history(30), check_history, quick=0, thorough=3000, qshards=1),
     ]
